@@ -84,6 +84,22 @@ let dispatch = function
   | M.DCall (r, p) -> "call " ^ request r ^ " " ^ hex_of_bytes p
   | M.DAssert -> "assert"
 
+let string_of_hex (s : string) : string =
+  if s = "-" then "" else
+  String.init (String.length s / 2) (fun i -> Char.chr (int_of_string ("0x" ^ String.sub s (2 * i) 2)))
+
+let hex_of_string (s : string) : string =
+  if s = "" then "-" else String.concat "" (List.map (fun c -> Printf.sprintf "%02x" (Char.code c)) (List.init (String.length s) (String.get s)))
+
+let pyval = function
+  | M.PInt z -> "i" ^ string_of_cz z
+  | M.PBool b -> if b then "bT" else "bF"
+  | M.PStr s -> "s" ^ hex_of_string (string_of_cstring s)
+  | M.POther z -> "o" ^ string_of_cz z
+
+let pyrec (r : (M.string * M.pyval) list) : string =
+  String.concat "," (List.sort compare (List.map (fun (k, v) -> hex_of_string (string_of_cstring k) ^ "=" ^ pyval v) r))
+
 (* ---- commands ------------------------------------------------------- *)
 let run (w : string list) : string =
   match w with
@@ -102,6 +118,20 @@ let run (w : string list) : string =
   | [ "crc_spec"; d ] -> string_of_cn (M.crc_spec (bytes_of_hex d))
   | [ "data_align"; p; d ] ->
     hex_of_bytes (M.data_align (cz_of_string p) (bytes_of_hex d))
+  | [ "chan_rec"; chan; typ; vdim; en; div; mlen; name; kind ] ->
+    (* attributes after construction, then outcome of setattr name *)
+    let r = M.chan_new (cz_of_string chan) (cz_of_string typ) (cz_of_string vdim)
+        (cstring_of "n") (en = "1") (cz_of_string div) (cz_of_string mlen) in
+    let nm = cstring_of (string_of_hex name) in
+    let v = (match kind with "int" -> M.PInt (cz_of_string "7") | "bool" -> M.PBool true
+                             | "str" -> M.PStr (cstring_of "v") | _ -> M.POther (cz_of_string "0")) in
+    let (r2, o) = M.chan_setattr r nm v in
+    pyrec r ^ " | " ^ (match o with M.Done -> "done" | M.TypeError -> "TypeError") ^ " | " ^ pyrec r2
+  | [ "dev_rec"; chmax; flags; rx; name ] ->
+    let r = M.dev_new (cz_of_string chmax) (cz_of_string flags) (cz_of_string rx) in
+    let nm = cstring_of (string_of_hex name) in
+    let (r2, o) = M.dev_setattr r nm (M.PInt (cz_of_string "7")) in
+    pyrec r ^ " | " ^ (match o with M.Done -> "done" | M.TypeError -> "TypeError") ^ " | " ^ pyrec r2
   | _ -> "driver-error unknown-command"
 
 let () =
